@@ -1,7 +1,6 @@
 use std::hash::{Hasher, Hash};
 use std::collections::{BTreeSet};
 use std::iter::FromIterator;
-use std::ops::Add;
 use std::cmp::Ordering;
 use std::convert::TryFrom;
 
